@@ -260,7 +260,7 @@ def gen_case(rng, i, tier):
     elif kind == 'wildcard':
         stem = words[0]
         base = add(stem)
-        subs = sorted(rng.sample(['x', 'y', 'z', 'w'], rng.randint(1, 3)))
+        subs = sorted(rng.sample(['x', 'y', 'z', 'w', 'x-eu', 'x,1', 'x+1', 'x 2', 'y-', 'X', 'x_'], rng.randint(1, 4)))
         for s in subs:
             add(stem + '.' + s)
         add(stem + '.' + subs[0] + '.deep')              # must not be matched: the wildcard does not cross dots
@@ -460,7 +460,7 @@ def run_layout(ctx, res, case, rng, lib=True):
             return os.path.join(d, p)
         return p
     fflag = rng.choice([['-f', 'json'], ['-f', 'json'], ['-fjson'], ['--format=json'], ['--format', 'json']])
-    pflag = ([rng.choice(['-P', '--skip-parent'])] if case['skipP'] else [])
+    pflag = ([rng.choice(['-P', '--skip-parent'])] if case['skipP'] else []) + ([rng.choice(['-v', '--verbose'])] if rng.random() < 0.1 else [])
     ins = [spell(p) for p in case['inputs']]
     order = rng.random()
     if order < 0.7:
